@@ -3,7 +3,7 @@
     proofs in Issuance/*.v.  Each theorem is followed by [Print Assumptions]. *)
 From Coq Require Import List Bool Arith Lia NArith.
 From CM Require Import Gen.Consts Issuance.Model Issuance.Proofs Issuance.Invariants Issuance.OwnFault
-  Issuance.NoReissueTL Issuance.NoReissue Issuance.AgreeTL Issuance.Agree Issuance.Refuted Issuance.Check Issuance.SpecLink Issuance.Takeover Issuance.ManageTL Issuance.ManageTakeover Issuance.FreshTL Issuance.Fresh Issuance.Examples.
+  Issuance.NoReissueTL Issuance.NoReissue Issuance.AgreeTL Issuance.Agree Issuance.Refuted Issuance.Check Issuance.SpecLink Issuance.Takeover Issuance.ManageTL Issuance.ManageTakeover Issuance.FreshTL Issuance.Fresh Issuance.Examples Issuance.Final Issuance.FinalTakeover.
 Import ListNotations.
 Close Scope N_scope.
 Open Scope nat_scope.
@@ -266,6 +266,61 @@ Example C01_hypotheses_nontrivial :
   exists s th1 th2, reachable cs no_sto s /\ thread_at s 0 th1 /\ thread_at s 1 th2 /\
     in_span th1 = true /\ tpc th2 = PLockWait.
 Proof. exact ex_hypotheses_nontrivial. Qed.
+
+(** leader crash: the instance holding the turn dies at any point of any run; once the Locker's
+    staleness rule has freed its lock ([crash_stale]) a request that was waiting for that lock
+    acquires it with its next step ... *)
+Theorem C01_waiter_takes_over_after_crash : forall s t th w thw,
+  I_lock s -> thread_at s t th -> locked (tpc th) = true ->
+  thread_at s w thw -> w <> t -> tpc thw = PLockWait -> c_lk (cfg thw) = c_lk (cfg th) ->
+  exists s' e, step (crash_stale s t) (Label w FNone true) = Some (s', e) /\
+    e_op e = OAcq (c_lk (cfg thw)) /\ e_out e = 0 /\ lks (sh s') (c_lk (cfg thw)) = Some w.
+Proof. exact waiter_takes_over_after_crash. Qed.
+Print Assumptions C01_waiter_takes_over_after_crash.
+
+(** ... and along every continuation (any schedule, any faults) issue spans under one lock key stay
+    disjoint: F1 survives the crash of a leader *)
+Theorem C01_spans_disjoint_after_crash : forall s t es s' t1 th1 t2 th2,
+  I_lock s -> runs any_label (crash_stale s t) es s' ->
+  thread_at s' t1 th1 -> thread_at s' t2 th2 -> in_span th1 = true -> in_span th2 = true ->
+  c_lk (cfg th1) = c_lk (cfg th2) -> t1 = t2.
+Proof. exact spans_disjoint_after_crash. Qed.
+Print Assumptions C01_spans_disjoint_after_crash.
+
+(** ... and nobody hangs behind the dead leader *)
+Theorem C01_no_hang_after_crash : forall cs st es0 s t es s',
+  runs unlock_ok (init_state cs st) es0 s -> runs unlock_ok (crash_stale s t) es s' ->
+  (exists u th, thread_at s' u th /\ final_pc (tpc th) = false) ->
+  exists l s'' e, l_fault l = FNone /\ step s' l = Some (s'', e).
+Proof. exact no_hang_after_crash. Qed.
+Print Assumptions C01_no_hang_after_crash.
+
+(** ... and the crash is never the cause of a follower's failure (F4c for obtain across a crash):
+    every other request to obtain errs or panics only through a fault of its own *)
+Theorem C01_obtain_follower_fails_only_by_own_fault_after_crash : forall cs st s t es s' u th a r,
+  reachable cs st s -> runs any_label (crash_stale s t) es s' ->
+  u <> t -> thread_at s' u th -> c_prog (cfg th) = PObtain a -> tpc th = PDone r -> r <> ROk -> flt th = true.
+Proof. exact obtain_follower_fails_only_by_own_fault_after_crash. Qed.
+Print Assumptions C01_obtain_follower_fails_only_by_own_fault_after_crash.
+
+(** witness: the leader dies inside the issuer, the waiting follower acquires, issues, saves, succeeds *)
+Example C01_takeover_after_crash_nontrivial :
+  exists s es s1 es1 th1,
+    run (init_state [obtain_lockA; obtain_lockA] no_sto) (sched (rep 6 0 ++ rep 2 1)) = Some (s, es) /\
+    run (crash_stale s 0) (sched (rep 10 1)) = Some (s1, es1) /\
+    thread_at s1 1 th1 /\ tpc th1 = PDone ROk /\ flt th1 = false /\
+    sto (sh s1) (SK 0 KCrt) <> None /\ lks (sh s1) 0 = None.
+Proof. exact ex_takeover_after_crash. Qed.
+
+(** R: a lock key that depends on the issuer list (name + preferred issuer) is refuted: configs that
+    agree on storage names and identifier but not on the lock key are inside the issuer together *)
+Theorem C01_issuer_dependent_lock_key_refuted :
+  exists s es th1 th2,
+    run (init_state [obtain_lockA; obtain_lockB] no_sto) (sched (rep 6 0 ++ rep 6 1)) = Some (s, es) /\
+    thread_at s 0 th1 /\ thread_at s 1 th2 /\ in_span th1 = true /\ in_span th2 = true /\
+    c_idn (cfg th1) = c_idn (cfg th2) /\ c_pk (cfg th1) = c_pk (cfg th2) /\ c_vk (cfg th1) = c_vk (cfg th2).
+Proof. exact issuer_dependent_lock_key_refuted. Qed.
+Print Assumptions C01_issuer_dependent_lock_key_refuted.
 
 (** tie to the source (translator T, re-read on every run): the statement order the program
     counters follow -- obtainCert: pre-check, checkStorage, acquireLock, and inside the attempt
